@@ -30,7 +30,8 @@ def run(ctx):
     # Tier B: MSPQ.tla (Hunt et al.'s heap: per-node locks and tags, heap-size lock, bit-reversed slots, both heapify loops); at quiescence the heap
     # is ordered, holds exactly pushed \ popped in the first cnt slots and all locks are free.  Refuted: seeded change C11 (size lock released early)
     vlib.model_check_many(ctx, [dict(module_rel="pq/MSPQMC.tla", cfg_rel="pq/MSPQ_q.cfg", workers=2),
-                                dict(module_rel="pq/MSPQMC.tla", cfg_rel="pq/MSPQ_bad_earlyunlock.cfg", workers=2, expect_violation="Assert")] +
+                                dict(module_rel="pq/MSPQMC.tla", cfg_rel="pq/MSPQ_bad_earlyunlock.cfg", workers=2, expect_violation="Assert"),
+                                dict(module_rel="pq/MSPQMC.tla", cfg_rel="pq/MSPQ_bad_parentnotempty.cfg", workers=4, expect_violation="Quiescent")] +      # seeded change C11b
                                ([] if ctx.quick() else [dict(module_rel="pq/MSPQMC.tla", cfg_rel="pq/MSPQ_q3.cfg", workers=8, timeout=3000)]), par=3)
     progs = list(PROGRAMS) + [gen_program(ctx.rng) for _ in range(1 if ctx.quick() else 6)]
     jobs = make_jobs(ctx, "pq", MSPQ, progs, group_of=lambda v: "ms") + make_jobs(ctx, "pq", FCPQ, progs, group_of=lambda v: "fc")
